@@ -210,8 +210,11 @@ def run_word(case):
     try:
         shutil.rmtree(wd, ignore_errors=True)
         bd = bool(case.get("breakdown"))
+        # the requirements are carried by every thread, or (one case in three) only by the last thread of
+        # the trace, which is not the one that emits the word
         tracegen.write_trace(wd, DESC, hist, require=histgen.require_of(enabled),
-                             extra_meta={"nosv": {"can_breakdown": True}} if (bd and mc == "V") else None)
+                             extra_meta={"nosv": {"can_breakdown": True}} if (bd and mc == "V") else None,
+                             require_on="last" if (len(hist) % 3 == 1 and not bd) else "all")
         r = emu.emu(build, wd, (["-l"] if case["lint"] else []) + (["-b"] if bd else []), timeout=60)
         if r.timeout:
             res["viol"] = ("inconclusive", "timeout"); return res
